@@ -58,8 +58,11 @@ PROBES = ["reader_blocked_by_writer", "writer_blocked", "three_or_more_polling",
           "session_failed_user_exc", "session_failed_encoder_exc", "session_failed_dup_at_put",
           "session_failed_io_error", "queue_nonempty_after_failed_session", "same_path_two_spellings", "two_libraries",
           "pickled_handle", "create_race", "reader_saw_maybe_record", "molecule_library_payload", "failed_put_caught_session_continues",
-          "used_handle_shipped_to_another_process", "shipped_handle_carried_a_write_queue"]
+          "used_handle_shipped_to_another_process", "shipped_handle_carried_a_write_queue", "session_left_by_a_base_exception"]
 
+# what user code inside a session can end with: ordinary exceptions, and the ones that do not derive from Exception
+# (Ctrl-C, sys.exit() in a worker that catches it further up, a cancelled asyncio task) - the process stays alive
+_USER_EXC = ["RuntimeError", "RuntimeError", "RuntimeError", "KeyboardInterrupt", "SystemExit", "CancelledError"]
 SPELLINGS = ["{n}", "./{n}", "sub/../{n}", "{cwd}/{n}", "ln/{n}", "lnk_{n}", "ln/ln/{n}"]
 
 
@@ -203,7 +206,7 @@ def gen_plan(r, tier, index):
                 continue
             pi, si = r.choice(anysessions)
             ops = procs[pi]["script"][si]["ops"]
-            ops.insert(r.randrange(len(ops) + 1), {"op": "raise"})
+            ops.insert(r.randrange(len(ops) + 1), {"op": "raise", "exc": r.choice(_USER_EXC)})
             continue
         if not wsessions:
             continue
@@ -211,7 +214,7 @@ def gen_plan(r, tier, index):
         sess = procs[pi]["script"][si]
         ops = sess["ops"]
         if kind == "user_exc":
-            ops.insert(r.randrange(len(ops) + 1), {"op": "raise"})
+            ops.insert(r.randrange(len(ops) + 1), {"op": "raise", "exc": r.choice(_USER_EXC)})
         elif kind == "encoder_exc":
             ops.insert(r.randrange(len(ops) + 1), {"op": "put_poison", "k": f"poison{pi}_{si}"})
         elif kind == "dup_in_session":
@@ -420,6 +423,11 @@ def _run_plan(plan, trace=False):
                     except Exception as e:  # noqa: BLE001 - a session may fail; the oracle decides whether it may
                         S.outcome = "exc"
                         S.exc = e
+                    except BaseException as e:  # noqa: BLE001 - caught further up by the (simulated) application: the process lives on
+                        if type(e).__name__ not in ("KeyboardInterrupt", "SystemExit", "CancelledError"):
+                            raise
+                        S.outcome = "exc"
+                        S.exc = e
                     kern.set_phase(None)
                     S.queue_keys = _queue(c)
                     S.queue_left = len(S.queue_keys)
@@ -468,6 +476,17 @@ def _run_plan(plan, trace=False):
                     c[op["k"]] = bad
                 elif o == "raise":
                     S.fault = S.fault or "user_exc"
+                    kind_ = op.get("exc", "RuntimeError")
+                    if kind_ != "RuntimeError":
+                        res.stats["probe:session_left_by_a_base_exception"] += 1
+                    if kind_ == "KeyboardInterrupt":
+                        raise KeyboardInterrupt()
+                    if kind_ == "SystemExit":
+                        raise SystemExit(3)
+                    if kind_ == "CancelledError":
+                        import asyncio
+
+                        raise asyncio.CancelledError()
                     raise RuntimeError("injected user exception")
                 elif o == "stall":
                     kern.sleep(op["d"])
